@@ -682,7 +682,23 @@ def main():
         sys.exit(setup())
     if not a.prop:
         ap.error("property id required")
-    sys.exit(run_check(a.prop.upper(), a.tier, a.replay))
+    try:
+        rc = run_check(a.prop.upper(), a.tier, a.replay)
+    except SystemExit:
+        raise
+    except BaseException as e:   # the machinery itself broke on this tree: the property is not shown to hold
+        import traceback
+        tb = traceback.format_exc()
+        print(tb)
+        rdir = os.path.join(BUILD, "scratch-replays") if SCRATCH else os.path.join(VERIF, "replays")
+        os.makedirs(rdir, exist_ok=True)
+        path = os.path.join(rdir, "%s-broken-harness.json" % a.prop.upper())
+        json.dump({"property": a.prop.upper(), "kind": "broken",
+                   "broken": ["the check itself raised %s while deciding this tree" % type(e).__name__],
+                   "traceback": tb[-4000:]}, open(path, "w"), indent=1)
+        print("VIOLATION property=%s replay=%s no-failing-input-found" % (a.prop.upper(), path))
+        rc = 1
+    sys.exit(rc)
 
 
 if __name__ == "__main__":
